@@ -928,7 +928,7 @@ fn u2fser(cap: usize, prior: &[u8], kind: &str, a: &[&str]) -> String {
         [
             0, 1, 2, 3, 4, 5, 6, 7, 8, 9, 10, 16, 32, 64, 65, 66, 67, 68, 69, 70, 71, 72, 73, 74, 75, 76, 77, 78, 79, 80, 100, 128, 130,
             137, 138, 139, 140, 141, 142, 200, 256, 300, 320, 321, 322, 323, 400, 512, 1024, 1100, 1345, 1346, 1347, 1348, 1400, 1417,
-            1418, 1419, 1420, 2048, 3072, 7609
+            1418, 1419, 1420, 2048, 3072, 7609, 70000
         ],
         &resp,
         prior
